@@ -168,7 +168,10 @@ def lenient_then_strict(res, judge):
         i, sc = cands[len(T) % len(cands)]
         cls = MODULE_CLASSES[t.mtype]
         v = sc.max + 7
-        chunks = [(c[0], c[1]) for c in iffparse.parse(api.Synth(cls()).read())]
+        stamped = api.Synth(cls())
+        # (the file may say it was written by any version of SunVox, also by one newer than this library knows)
+        stamped.sunsynth_version = ((2, 1, 2, 1), (2, 2, 0, 0), (9, 9, 9, 9), (1, 9, 6, 1), (255, 255, 255, 255))[len(T) % 5]
+        chunks = [(c[0], c[1]) for c in iffparse.parse(stamped.read())]
         idx = [k for k, c in enumerate(chunks) if c[0] == b"CVAL"]
         if i >= len(idx):
             continue
